@@ -22,6 +22,30 @@ variable {α : Type} [Add α] [Sub α] [Mul α] [Div α] [Neg α] [NatCast α] [
 
 /-! ### analytic sub-problems -/
 
+/-- the edge loop of `solveQuadratic2DTriangle`: `if (gain > maxGain) {maxIndex = k; maxGain = gain;}` -/
+def triPick (alphai alphaj gi gj Qii Qij Qjj : α) (best : (α × α) × α) (s : α × α) : (α × α) × α :=
+  let g := gain2D gi gj Qii Qij Qjj (s.1 - alphai) (s.2 - alphaj)
+  if g > best.2 then (s, g) else best
+
+/-- "improve numerical stability" at the end of `solveQuadratic2DTriangle` -/
+def triSnap (maxSum : α) (r : α × α) : α × α :=
+  let r : α × α :=
+    if r.1 < (1.e-12 : α) * maxSum then ((0.0 : α), r.2)
+    else if maxSum - r.1 < (1.e-12 : α) * maxSum then (maxSum, (0.0 : α)) else r
+  if r.2 < (1.e-12 : α) * maxSum then (r.1, (0.0 : α))
+  else if maxSum - r.2 < (1.e-12 : α) * maxSum then ((0.0 : α), maxSum) else r
+
+/-- the three edge solutions of `solveQuadratic2DTriangle` -/
+def triEdge0 (alphai alphaj gj Qij Qjj maxSum : α) : α × α :=
+  ((0.0 : α), solveEdge alphaj (gj + Qij * alphai) Qjj (0.0 : α) maxSum)
+def triEdge1 (alphai alphaj gi Qii Qij maxSum : α) : α × α :=
+  (solveEdge alphai (gi + Qij * alphaj) Qii (0.0 : α) maxSum, (0.0 : α))
+def triEdge2 (alphai alphaj gi gj Qii Qij Qjj maxSum : α) : α × α :=
+  let ggi := gi - (maxSum - alphai) * Qii + alphaj * Qij
+  let ggj := gj - (maxSum - alphai) * Qij + alphaj * Qjj
+  let t := solveEdge (0.0 : α) (ggj - ggi) (Qii + Qjj - (2.0 : α) * Qij) (0.0 : α) maxSum
+  (maxSum - t, t)
+
 /-- `detail::solveQuadratic2DTriangle(alphai, alphaj, gi, gj, Qii, Qij, Qjj, maxSum)`: new `(alphai, alphaj)` -/
 def solve2DTriangle (alphai alphaj gi gj Qii Qij Qjj maxSum : α) : α × α :=
   let detQ := Qii * Qjj - Qij * Qij
@@ -31,23 +55,12 @@ def solve2DTriangle (alphai alphaj gi gj Qii Qij Qjj maxSum : α) : α × α :=
   let optj := alphaj + muj
   if detQ > (1.e-12 : α) ∧ opti > (0.0 : α) ∧ optj > (0.0 : α) ∧ opti + optj < maxSum then (opti, optj)
   else
-    let s0 : α × α := ((0.0 : α), solveEdge alphaj (gj + Qij * alphai) Qjj (0.0 : α) maxSum)
-    let s1 : α × α := (solveEdge alphai (gi + Qij * alphaj) Qii (0.0 : α) maxSum, (0.0 : α))
-    let ggi := gi - (maxSum - alphai) * Qii + alphaj * Qij
-    let ggj := gj - (maxSum - alphai) * Qij + alphaj * Qjj
-    let t := solveEdge (0.0 : α) (ggj - ggi) (Qii + Qjj - (2.0 : α) * Qij) (0.0 : α) maxSum
-    let s2 : α × α := (maxSum - t, t)
+    let s0 := triEdge0 alphai alphaj gj Qij Qjj maxSum
+    let s1 := triEdge1 alphai alphaj gi Qii Qij maxSum
+    let s2 := triEdge2 alphai alphaj gi gj Qii Qij Qjj maxSum
     -- `maxGain = -1; maxIndex = 0; for k: if (gain > maxGain) {maxIndex = k; maxGain = gain;}`
-    let pick (best : (α × α) × α) (s : α × α) : (α × α) × α :=
-      let g := gain2D gi gj Qii Qij Qjj (s.1 - alphai) (s.2 - alphaj)
-      if g > best.2 then (s, g) else best
-    let r := (pick (pick (pick (s0, -(1.0 : α)) s0) s1) s2).1
-    -- "improve numerical stability"
-    let r : α × α :=
-      if r.1 < (1.e-12 : α) * maxSum then ((0.0 : α), r.2)
-      else if maxSum - r.1 < (1.e-12 : α) * maxSum then (maxSum, (0.0 : α)) else r
-    if r.2 < (1.e-12 : α) * maxSum then (r.1, (0.0 : α))
-    else if maxSum - r.2 < (1.e-12 : α) * maxSum then ((0.0 : α), maxSum) else r
+    let pk := triPick alphai alphaj gi gj Qii Qij Qjj
+    triSnap maxSum (pk (pk (pk (s0, -(1.0 : α)) s0) s1) s2).1
 
 /-- `detail::maximumGainQuadratic2DOnLine(Qii, Qjj, Qij, gi, gj)` (minCurvature = 1e-12) -/
 def maxGainOnLine (Qii Qjj Qij gi gj : α) : α :=
